@@ -13,7 +13,7 @@ EXPLANATION = (
     "schedules the second query round.  Decides that removals are produced, forwarded and armed; not the time of "
     "delivery over histories."
     " (f) Only an expired PTR or an emptied SRV vector puts an instance into the removal set, and the eviction results reach the notifiers whole (no truncating adapter)."
-    " (g) The host names evict_expired_addr reports are the expired records' own names. (h) Expiry times only move forward outside reset_ttl.")
+    " (g) The host names evict_expired_addr reports are the expired records' own names. (h) Expiry times only move forward outside reset_ttl. (i) The walk over the PTR names in evict_expired_services removes no key from DnsCache.srv, so an expired SRV is reported under every type and subtype that lists the instance.")
 UNDECIDED = ["time of delivery of ServiceRemoved relative to the TTL", "'not before' (no spurious removal) over histories",
              "duplicates across histories"]
 
@@ -346,6 +346,7 @@ def run(ctx, P):
     from . import r2
     r2.evicted_addr_names_are_record_names(ctx, P, "C05g")
     r2.expiry_only_brought_forward(ctx, P, "C05h")
+    r2.srv_expiry_reported_for_every_listing(ctx, P, "C05i")
     clause_f(ctx, P)
     clause_ab(ctx, P)
     clause_c(ctx, P)
